@@ -233,6 +233,8 @@ func c16Steps(c *Ctx, stmts []ast.Stmt, out *[]string) error {
 			}
 		case *ast.IncDecStmt:
 			*out = append(*out, "incdec")
+		case *ast.BranchStmt:
+			*out = append(*out, s.Tok.String())
 		default:
 			return fmt.Errorf("statement shape not understood: %T %s", st, c.Src(st))
 		}
@@ -419,6 +421,91 @@ func c16GenesisOrder(c *Ctx) error {
 	return nil
 }
 
+// c16Ante: the loop of x/paloma VerifyAuthorisedSignatureDecorator.AnteHandle must look at every
+// message: no call of next(...) inside the loop body; shape of the "signed by creator" branch and of
+// the rest of the body.
+func c16Ante(c *Ctx) error {
+	files, err := c.ParseDir("x/paloma")
+	if err != nil {
+		return err
+	}
+	fd := FindFuncIn(files, "VerifyAuthorisedSignatureDecorator", "AnteHandle")
+	if fd == nil || fd.Body == nil {
+		return fmt.Errorf("VerifyAuthorisedSignatureDecorator.AnteHandle not found")
+	}
+	var loop *ast.RangeStmt
+	for _, st := range fd.Body.List {
+		if rs, ok := st.(*ast.RangeStmt); ok && c16Norm(c.Src(rs.X)) == "msgs" {
+			loop = rs
+		}
+	}
+	if loop == nil {
+		return fmt.Errorf("AnteHandle: `range msgs` loop not found")
+	}
+	nextCalls := len(Calls(loop.Body, "next"))
+	var branch, tail []string
+	seen := false
+	for _, st := range loop.Body.List {
+		if is, ok := st.(*ast.IfStmt); ok && c16Norm(c.Src(is.Cond)) == "signedByCreator" {
+			if err := c16Steps(c, is.Body.List, &branch); err != nil {
+				return fmt.Errorf("AnteHandle signedByCreator branch: %v", err)
+			}
+			seen = true
+			continue
+		}
+		if seen {
+			if is, ok := st.(*ast.IfStmt); ok && is.Init != nil {
+				// `if v, found := m[k]; found {…}` and friends: keep init in the condition text
+			}
+			if err := c16AnteStep(c, st, &tail); err != nil {
+				return fmt.Errorf("AnteHandle loop tail: %v", err)
+			}
+		}
+	}
+	if !seen {
+		return fmt.Errorf("AnteHandle: `if signedByCreator` not found in the loop")
+	}
+	c.P("(* x/paloma/ante.go VerifyAuthorisedSignatureDecorator.AnteHandle, the loop over the messages *)")
+	c.P("Definition ante_next_calls_inside_loop : Z := %d.", nextCalls)
+	c.P("Definition ante_signed_by_creator_branch : list string := %s.", CoqStrList(branch))
+	c.P("Definition ante_loop_tail : list string := %s.", CoqStrList(tail))
+	c.Info("ante_next_calls_inside_loop", nextCalls)
+	return nil
+}
+
+// c16AnteStep: like c16Steps for one statement, but an `if x, ok := …; ok {` keeps its init in the
+// condition, and error branches may log before returning.
+func c16AnteStep(c *Ctx, st ast.Stmt, out *[]string) error {
+	switch s := st.(type) {
+	case *ast.IfStmt:
+		cond := c16Norm(c.Src(s.Cond))
+		if s.Init != nil {
+			cond = c16Norm(c.Src(s.Init)) + "; " + cond
+		}
+		if cond == "err != nil" {
+			return nil
+		}
+		var inner []string
+		for _, b := range s.Body.List {
+			if err := c16AnteStep(c, b, &inner); err != nil {
+				return err
+			}
+		}
+		*out = append(*out, "if("+cond+"){"+strings.Join(inner, ";")+"}")
+		return nil
+	case *ast.RangeStmt:
+		var inner []string
+		for _, b := range s.Body.List {
+			if err := c16AnteStep(c, b, &inner); err != nil {
+				return err
+			}
+		}
+		*out = append(*out, "range("+c16Norm(c.Src(s.X))+"){"+strings.Join(inner, ";")+"}")
+		return nil
+	}
+	return c16Steps(c, []ast.Stmt{st}, out)
+}
+
 func extractC16(c *Ctx) error {
 	types, err := c.ParseDir("x/tokenfactory/types")
 	if err != nil {
@@ -516,6 +603,9 @@ func extractC16(c *Ctx) error {
 		return err
 	}
 	if err := c16GenesisOrder(c); err != nil {
+		return err
+	}
+	if err := c16Ante(c); err != nil {
 		return err
 	}
 	c.P("")
